@@ -35,7 +35,18 @@ def _work(mod_name: str, tier: str, base_seed: int, start: int, count: int, dead
     """Runs in a forked worker process."""
     faulthandler.enable()
     mod = importlib.import_module(mod_name)
+    known = _findings.load()
+
+    def keep(i, run_seed, case, v):
+        key = mod.finding_key(case, v) if hasattr(mod, "finding_key") else str(v.get("clause", ""))
+        hit = _findings.match(known, mod.PROPERTY, key)
+        if hit is not None:
+            out["known"][hit["id"]] = out["known"].get(hit["id"], 0) + 1
+        elif len(out["violations"]) < 40:
+            out["violations"].append({"index": i, "run_seed": run_seed, "case": case, "violation": v})
+
     out = {
+        "known": {},
         "runs": 0,
         "stats": {},
         "distinct": set(),
@@ -78,11 +89,9 @@ def _work(mod_name: str, tier: str, base_seed: int, start: int, count: int, dead
                 break
         if res.get("violations"):
             for v in res["violations"]:
-                if len(out["violations"]) < 40:
-                    out["violations"].append({"index": i, "run_seed": run_seed, "case": res.get("case", case), "violation": v})
+                keep(i, run_seed, res.get("case", case), v)
         elif res.get("violation"):
-            if len(out["violations"]) < 40:
-                out["violations"].append({"index": i, "run_seed": run_seed, "case": res.get("case", case), "violation": res["violation"]})
+            keep(i, run_seed, res.get("case", case), res["violation"])
         if len(out["samples"]) < 2 and res.get("sample") is not None:
             out["samples"].append(res["sample"])
     return out
@@ -90,7 +99,7 @@ def _work(mod_name: str, tier: str, base_seed: int, start: int, count: int, dead
 
 def run_batch(mod_name: str, tier: str, base_seed: int, *, wall_budget: float, workers: int, chunk: int, max_runs: int | None, per_run_cap: float = 120.0):
     ctx = mp.get_context("fork")
-    agg = {"runs": 0, "stats": {}, "distinct": set(), "schedules": set(), "states": set(), "violations": [], "errors": [], "steps": 0, "samples": []}
+    agg = {"known": {}, "runs": 0, "stats": {}, "distinct": set(), "schedules": set(), "states": set(), "violations": [], "errors": [], "steps": 0, "samples": []}
     t0 = time.monotonic()
     deadline = t0 + wall_budget
     next_start = 0
@@ -124,6 +133,7 @@ def run_batch(mod_name: str, tier: str, base_seed: int, *, wall_budget: float, w
                 agg["runs"] += r["runs"]
                 agg["steps"] += r["steps"]
                 _merge_counter(agg["stats"], r["stats"])
+                _merge_counter(agg["known"], r["known"])
                 agg["distinct"] |= r["distinct"]
                 agg["schedules"] |= r["schedules"]
                 agg["states"] |= r["states"]
@@ -152,8 +162,12 @@ def replay_in_fresh_interpreter(prop: str, path: str, timeout: float = 300.0) ->
     return p.returncode, p.stdout + p.stderr
 
 
+def vkey(v: dict) -> str:
+    return str(v.get("key") or v.get("clause"))
+
+
 def same_violation(a: dict | None, b: dict | None) -> bool:
-    return a is not None and b is not None and a.get("clause") == b.get("clause")
+    return a is not None and b is not None and vkey(a) == vkey(b)
 
 
 def minimise(mod, case: dict, violation: dict, budget: int = 300, wall: float = 120.0) -> tuple[dict, dict, int]:
@@ -224,27 +238,30 @@ def main_check(mod_name: str, args) -> int:
     reported = []
     known_hits: dict[str, dict] = {}
     unknown = []
+    by_id = {k["id"]: k for k in known.get("known", [])}
+    for kid in agg["known"]:
+        known_hits[kid] = by_id[kid]
     for v in sorted(agg["violations"], key=lambda x: x["index"]):
-        key = mod.finding_key(v["case"], v["violation"]) if hasattr(mod, "finding_key") else v["violation"].get("clause", "")
+        key = mod.finding_key(v["case"], v["violation"]) if hasattr(mod, "finding_key") else str(v["violation"].get("clause", ""))
         hit = _findings.match(known, prop, key)
         if hit is not None:
             known_hits.setdefault(hit["id"], hit)
         else:
             unknown.append(v)
-    for hit in known_hits.values():
-        print(f"KNOWN-FINDING: property={prop} {hit['what']}")
+    for kid, hit in known_hits.items():
+        print(f"KNOWN-FINDING: property={prop} {hit['what']} [{agg['known'].get(kid, 0)} occurrence(s) in this batch]")
     n_viol = 0
     if unknown:
         seen_clauses = set()
         for v in unknown:
-            clause = v["violation"].get("clause")
+            clause = vkey(v["violation"])
             if clause in seen_clauses:
                 continue
             seen_clauses.add(clause)
             if len(seen_clauses) > 3:
                 break
             case, viol, tries = minimise(mod, v["case"], v["violation"], budget=cfg.get("shrink_budget", 300), wall=cfg.get("shrink_wall", 90.0))
-            tag = f"{tier}-seed{base_seed}-run{v['index']}-{str(clause).replace('/', '_').replace(' ', '_')[:40]}"
+            tag = f"{tier}-seed{base_seed}-run{v['index']}-" + "".join(ch if ch.isalnum() or ch in "-_=" else "_" for ch in str(clause))[:60]
             path = write_replay(prop, case, viol, v["run_seed"], tag)
             rc, out = replay_in_fresh_interpreter(prop, path)
             if rc != 1:
@@ -297,7 +314,7 @@ def main_replay(mod_name: str, path: str, quiet: bool = False) -> int:
     vs = res.get("violations") or ([res["violation"]] if res.get("violation") else [])
     want = rp.get("violation") or {}
     for v in vs:
-        if not want or v.get("clause") == want.get("clause"):
+        if not want or vkey(v) == vkey(want):
             print(f"VIOLATION property={mod.PROPERTY} replay={path}")
             if not quiet:
                 print(json.dumps(v, indent=1, default=str)[:4000])
